@@ -144,8 +144,10 @@ type World struct {
 	SideEffects int
 	// DetachInCoercion counts detach effects executed.
 	DetachInCoercion int
-	CurSrc           *Array
-	LittleEndian     bool // platform endianness used by typed array element access
+	// HugeIntConversions counts integer element conversions of finite Numbers with |x| >= 2^63.
+	HugeIntConversions int
+	CurSrc             *Array
+	LittleEndian       bool // platform endianness used by typed array element access
 }
 
 func NewWorld() *World {
